@@ -1022,6 +1022,16 @@ static std::ostream& print_double(std::ostream& os, double value)
     return os << text;
 }
 
+/** The type of a quantifier's bound variable in source syntax. The builder adds the const prefix itself, and the query
+    language has no 'const' keyword, so it is left out. */
+static std::string binder_type(const expression_t& binder)
+{
+    type_t type = binder.get_symbol().get_type();
+    if (type.get_kind() == CONSTANT)
+        type = type[0];
+    return type.declaration();
+}
+
 static const char* get_builtin_fun_name(kind_t kind)
 {
     // the order must match declarations in include/utap/common.h
@@ -1511,17 +1521,17 @@ std::ostream& expression_t::print(std::ostream& os, bool old) const
         break;
 
     case FORALL:
-        os << "forall(" << get(0).get_symbol().get_name() << ':' << get(0).get_symbol().get_type().declaration() << ") ";
+        os << "forall(" << get(0).get_symbol().get_name() << ':' << binder_type(get(0)) << ") ";
         get(1).print(os, old);
         break;
 
     case EXISTS:
-        os << "exists(" << get(0).get_symbol().get_name() << ':' << get(0).get_symbol().get_type().declaration() << ") ";
+        os << "exists(" << get(0).get_symbol().get_name() << ':' << binder_type(get(0)) << ") ";
         get(1).print(os, old);
         break;
 
     case SUM:
-        os << "sum(" << get(0).get_symbol().get_name() << ':' << get(0).get_symbol().get_type().declaration() << ") ";
+        os << "sum(" << get(0).get_symbol().get_name() << ':' << binder_type(get(0)) << ") ";
         get(1).print(os, old);
         break;
 
